@@ -43,6 +43,13 @@ def make_scratch(tag):
 
 
 def apply_edit(root, m):
+    if m.get("patch"):
+        # an independently written refactoring kept under /verif/neutral or /verif/seeded, applied before any edits
+        r = subprocess.run(["patch", "-p1", "-s", "--no-backup-if-mismatch", "-i", os.path.join(VERIF, m["patch"])], cwd=root, capture_output=True, text=True)
+        if r.returncode != 0:
+            return "skip: patch %s does not apply: %s" % (m["patch"], (r.stdout + r.stderr)[-200:])
+        if not m.get("edits") and "find" not in m:
+            return None
     edits = m.get("edits") or [m]
     for e in edits:
         p = os.path.join(root, e["file"])
